@@ -471,6 +471,8 @@ def main(argv):
             for (sc, k) in sorted(seen):
                 if mode != "direct" and sc in ("write", "close", "openat", "read"):
                     work.append((name, script, mode, inline, sc, k, "ENOSPC"))
+                    if sc in ("write", "read"):
+                        work.append((name, script, mode, inline, sc, k, "EINTR"))     # a signal without SA_RESTART
                 elif mode == "direct" and sc == "write":
                     # a failed write while the trace is being produced: the process stops or
                     # goes on, what it leaves must still not be finished-and-lacking
